@@ -283,9 +283,11 @@ Section Step.
     | PLGet =>
         match by_id s with
         | None => (set_pc t PLRm, s)                                                  (* expired/deleted: drop the index entry *)
-        | Some r => if (expired s && negb (c_act r)) || (purge_revoked C && c_rev r)
-                    then (set_pc t PPGet, s)                                          (* filtered out, clean-up spawned *)
-                    else (finish t RListed, s)
+        | Some r => if purge_revoked C && c_rev r then (set_pc t PPGet, s)           (* only in the refuted variant *)
+                    else if expired s                                                 (* IsExpired() && !IsActivated: *)
+                         then (if c_act r then (finish t RListed, s)
+                               else (set_pc t PPGet, s))                              (* filtered out, clean-up spawned *)
+                         else (finish t RListed, s)
         end
     | PLRm => (finish t RListed, set_tidx s false)
     | PPGet => match by_id s with                                                     (* Delete: GetByID *)
